@@ -147,6 +147,41 @@ def pair_codec(run, h, batch, rng):
         run.count("decode noncanonical digest")
         run.check_monitor("decoded_pair_is_hash_lock", not got, dict(cc, impl=got))
         batch.add("r_revpair_decode %d %d 0" % (lk, s), lambda r, got=got, cc=cc: run.check_corr("corr.C05.revpair_decode", bool(r[0]) == got, dict(cc, model=r[:1])))
+    # digests in the narrow bands around the modulus (found by search: about 3600 hashes for the first band): just above q
+    # with q's own top byte 0x73 (not canonical - must be refused by the decoder and skipped by the generator), just below q
+    # with the same top byte (canonical), and top byte 0x74 (not canonical)
+    def digest0(x):
+        return int.from_bytes(sha3(x.to_bytes(32, "little") + b"\x00"), "little")
+    bands = [("just_above_q_same_top_byte", lambda d: Q <= d < (0x74 << 248), False),
+             ("just_below_q_same_top_byte", lambda d: (0x73 << 248) <= d < Q, True),
+             ("top_byte_0x74", lambda d: (0x74 << 248) <= d < (0x75 << 248), False)]
+    for bname, inband, canonical in bands:
+        s = None
+        for _ in range(200000):
+            x = rand_nz(rng)
+            if inband(digest0(x)):
+                s = x
+                break
+        if s is None:
+            run.notes.append("no secret found for digest band " + bname)
+            continue
+        d = digest0(s)
+        got = h.call("decode", "RevocationPair", pair_bytes(d % Q, s, 0))[0] == "ok"
+        cc = {"op": "revpair_decode", "kind": "digest_band_" + bname, "secret": s, "lock": d % Q}
+        run.case(cc)
+        run.count("decode digest band " + bname)
+        run.check_monitor("decoded_pair_is_hash_lock", got == canonical, dict(cc, impl=got))
+        batch.add("r_revpair_decode %d %d 0" % (d % Q, s), lambda r, got=got, cc=cc: run.check_corr("corr.C05.revpair_decode", bool(r[0]) == got, dict(cc, model=r[:1])))
+        h.begin()
+        h.rng(1, [s])
+        pb = h.call("revpair_new")[0]
+        lock, sec, index = unsc(pb[:64]), unsc(pb[64:128]), int(pb[128:130], 16)
+        first = next(j for j in range(256) if canonical_lock(s, j) is not None)
+        gc = {"op": "revpair_new", "kind": "digest_band_" + bname, "secret": s, "script": h.end()}
+        run.case(gc)
+        run.check_monitor("generated_pair_is_hash_lock", sec == s and index == first and canonical_lock(s, index) == lock and (index == 0) == canonical,
+                          dict(gc, impl=[lock, sec, index]))
+        batch.add("r_revpair_new %d" % s, lambda r, gc=gc, e=[1, lock, sec, index]: run.check_corr("corr.C05.revpair_new", r == e, dict(gc, model=r)))
     # non-canonical scalar encodings inside the pair
     raw = (Q + 1).to_bytes(32, "little").hex()
     got = h.call("decode", "RevocationPair", raw + sc(5) + "00")[0] == "ok"
